@@ -248,6 +248,10 @@ def _paired(run: Run, ctx, fi: FuncInfo, rule: str) -> None:
         ok = ok and p.recv is not None and p.recv == q.recv
         tgt = g.args[-1] if g.args else None
         ok = ok and tgt == ("param", fi.pos_params[1])
+    from ..lib import pop_is_lifo
+
+    for q_ in pops:
+        run.check(pop_is_lifo(q_), rule, fi, stmt_of(q_.call) if q_.owner is fi else fi.node, f"{fi.name}: the frame removed is the newest one", f"{fi.name} removes the frame at position {', '.join(show(a_) for a_ in q_.args)} of the stack, not the newest one: after a nested lambda / comprehension the enclosing scope's frame is gone while its body is still being visited, so its parameters are treated as free names (replaced by a captured value of the same name)", ".pop()")
     run.check(ok, rule, fi, fi.node, f"{fi.name}: frame pushed before and popped after generic_visit(node) on every path", f"{fi.name} does not pair push / generic_visit(node) / pop on every path: bound names leak out of, or are not shadowed inside, their scope")
 
 
@@ -423,6 +427,10 @@ def check_comprehension_shadow(run: Run, ctx: TermCtx, m, cls: ClassInfo, rule: 
             ok_t = ok_t or (contains(t, lambda s_: s_ == ("attr", nodep, "generators")) and whole and contains(t, lambda s_: s_[0] == "attr" and s_[2] == "id"))
         run.check(ok_t, rule, h, h.node, "frame holds every Name inside every generator target (tuple targets included)", f"the frame pushed by {h.name} is not built from all Name nodes found by walking each generator's target", "[n.id for g in node.generators for n in ast.walk(g.target) if isinstance(n, ast.Name)]")
         ok_p = len(pushes) == 1 and len(pops) == 1 and pushes[0].recv is not None and pushes[0].recv == pops[0].recv and event_after(ctx, h, pops[0], pushes[0])
+        from ..lib import pop_is_lifo as _lifo
+
+        for q_ in pops:
+            run.check(_lifo(q_), rule, h, stmt_of(q_.call) if q_.owner is h else h.node, f"{h.name}: the frame removed is the newest one", f"{h.name} removes the frame at position {', '.join(show(a_) for a_ in q_.args)} of the stack, not the newest one: the frame of an enclosing scope is dropped while that scope is still being visited", ".pop()")
         def _result_field(t_) -> bool:
             # node.elt / node.key / node.value - or getattr(node, <field>) with the field's name taken from a table of
             # exactly these names (the element fields by kind of comprehension)
